@@ -1,6 +1,117 @@
-From Coq Require Import ZArith List.
-From MV Require Import C06.Model Gen.C06.
+(* C06 -- Consensus progress is monotonic.  Property theorems only.
+
+   pos = (height, round, stage, majority, suffrage-confirm); valid_pos = a position of the property's domain
+   (height >= 0, INIT or ACCEPT, suffrage-confirm only at INIT).  run zero_pos ps = the states and results of
+   Ballotbox.SetLastPoint called with ps on a fresh Ballotbox; before / is_new_vp = LastPoint.Before
+   (= IsNewBallot) / IsNewVoteproofbyPoint; h_set / h_is_new = LastVoteproofsHandler.Set / IsNew. *)
+From Coq Require Import ZArith NArith List Sorted Lia.
+From MV Require Import C06.Model C06.Proofs C06.ProofsH Gen.C06.
 Import ListNotations.
 Open Scope Z_scope.
+
+(* the position never moves to a lower height: along every history of SetLastPoint calls with positions of
+   the domain the heights of the successive states are non-decreasing *)
+Theorem C06_height_monotone : forall ps, Forall valid_pos ps ->
+  StronglySorted (fun a b => ph a <= ph b) (zero_pos :: map fst (run zero_pos ps)).
+Proof. intros. apply run_height_sorted; auto. left; auto. Qed.
+
+(* every state reached is a position of the domain (so it is never the zero value again) *)
+Theorem C06_states_valid : forall ps, Forall valid_pos ps -> Forall valid_pos (map fst (run zero_pos ps)).
+Proof. intros. apply run_states_valid; auto. left; auto. Qed.
+
+(* ballots and voteproofs for lower heights are always rejected (any non-zero current position, any
+   round, stage and flags of the candidate) *)
+Theorem C06_lower_height_rejected : forall l h r s maj sc, is_zero l = false -> h < ph l ->
+  is_new_ballot l h r s sc = false /\ is_new_vp l h r s maj sc = false.
+Proof. intros. split; [apply before_lower_rejected | apply is_new_vp_lower_rejected]; auto. Qed.
+
+(* within a height the position moves to an earlier round or stage only to take a suffrage-confirm result
+   while the current position is not a majority (SetLastPoint and the voteproof test alike) *)
+Theorem C06_backward_only_sc : forall l p, is_zero l = false ->
+  snd (set_last_point l p) = true -> ph p = ph l -> earlier (pr p) (ps p) (pr l) (ps l) ->
+  psc p = true /\ pmaj l = false.
+Proof.
+  intros l p Z S E Ea. unfold set_last_point in S.
+  destruct (before l (ph p) (pr p) (ps p) (psc p)) eqn:B; [|discriminate].
+  eapply before_backward; eauto.
+Qed.
+
+Theorem C06_backward_only_sc_voteproof : forall l h r s maj sc, is_zero l = false ->
+  is_new_vp l h r s maj sc = true -> h = ph l -> earlier r s (pr l) (ps l) -> sc = true /\ pmaj l = false.
+Proof. exact is_new_vp_backward. Qed.
+
+(* one step never re-takes the current position; the same stage point is taken again only as
+   plain -> suffrage-confirm (SetLastPoint), or also non-majority -> majority (voteproof test) *)
+Theorem C06_no_retake_step : forall l p, is_zero l = false -> snd (set_last_point l p) = true ->
+  p <> l /\ (same_point p l -> psc p = true /\ psc l = false).
+Proof.
+  intros l p Z S. split; [apply set_last_point_neq; auto|]. intros [E1 [E2 E3]].
+  unfold set_last_point in S. destruct (before l (ph p) (pr p) (ps p) (psc p)) eqn:B; [|discriminate].
+  eapply before_same_point; eauto.
+Qed.
+
+Theorem C06_no_retake_step_voteproof : forall l h r s maj sc, is_zero l = false ->
+  is_new_vp l h r s maj sc = true -> h = ph l -> r = pr l -> s = ps l ->
+  (sc = true /\ psc l = false) \/ (pmaj l = false /\ maj = true).
+Proof. exact is_new_vp_same_point. Qed.
+
+(* "the same position is never taken twice" over a whole history is FALSE of the code: the documented
+   witness A=(33,1,INIT,not majority) -> B=(33,0,INIT,majority,suffrage-confirm) -> A: all accepted *)
+Theorem C06_no_retake_history_refuted : exists ps,
+  Forall valid_pos ps /\ map snd (run zero_pos ps) = [true; true; true] /\ ~ NoDup (accepted zero_pos ps).
+Proof.
+  exists [mkpos 33 1 INIT false false; mkpos 33 0 INIT true true; mkpos 33 1 INIT false false].
+  split; [|split].
+  - repeat constructor; simpl; try lia; congruence.
+  - vm_compute. reflexivity.
+  - vm_compute. intros N. inversion N as [|? ? Hn _]; subst. apply Hn. right. left. reflexivity.
+Qed.
+
+(* ... and it holds whenever no accepted update of the history is a backward move: this delimits the finding
+   (class retake-after-sc-backward-move): a position can be taken twice only across a backward move *)
+Theorem C06_no_retake_history_partial : forall ps, Forall valid_pos ps -> no_backward zero_pos ps ->
+  NoDup (accepted zero_pos ps).
+Proof. intros. apply accepted_forward_nodup; auto. left; auto. Qed.
+
+Theorem C06_no_retake_between_backward_moves : forall l ps, valid_pos l -> Forall valid_pos ps ->
+  no_backward l ps -> ~ In l (accepted l ps).
+Proof. intros. apply accepted_forward_not_in; auto. Qed.
+
+(* the last-voteproofs store: under any sequence of Set calls with well-formed voteproofs the height of the
+   cap voteproof (the position voteproofs are judged against) never decreases, ... *)
+Theorem C06_lvh_height_monotone : forall vs, Forall hvalid vs ->
+  StronglySorted (fun a b => cap_h (h_last a) <= cap_h (h_last b)) (handler0 :: h_sets lru_capacity handler0 vs).
+Proof. intros. apply h_sets_sorted; auto. apply hinv0. Qed.
+
+(* ... and voteproofs for lower heights are not new *)
+Theorem C06_lvh_lower_height_rejected : forall h lp v,
+  h_pos h = Some lp -> is_zero lp = false -> vh v < ph lp -> h_is_new h v = false.
+Proof. exact h_is_new_lower_rejected. Qed.
+
+(* but the store's position can move back to a position that is not a suffrage-confirm result (finding
+   lvh-stale-accept-after-sc-backward): ACCEPT draw (2,1); INIT draw (2,2); suffrage-confirm INIT (2,1) *)
+Theorem C06_lvh_backward_only_sc_refuted : exists vs h l p v,
+  Forall hvalid vs /\ nth_error (h_sets lru_capacity handler0 vs) 1 = Some h /\ nth_error vs 2 = Some v /\
+  h_pos h = Some l /\ h_pos (fst (h_set lru_capacity h v)) = Some p /\
+  backward l p /\ psc p = false.
+Proof.
+  exists [mkvp 2 1 ACCEPT false false 0; mkvp 2 2 INIT false false 1; mkvp 2 1 INIT true true 2].
+  eexists. eexists. eexists. eexists.
+  split; [repeat constructor; simpl; try lia; congruence|].
+  split; [vm_compute; reflexivity|]. split; [reflexivity|].
+  split; [vm_compute; reflexivity|]. split; [vm_compute; reflexivity|].
+  split; [|reflexivity]. split; [reflexivity|]. left. vm_compute. reflexivity.
+Qed.
+
+(* the cache size of the model is the code's (regenerated constant) *)
 Theorem C06_cache_size_is_code : lvh_new_ints = [1; 3] /\ Z.shiftl 1 3 = Z.of_nat lru_capacity.
 Proof. split; reflexivity. Qed.
+
+(* non-vacuity: a history with a rejected and a backward update *)
+Example C06_example :
+  let ps := [mkpos 1 1 INIT false false; mkpos 0 2 ACCEPT true false; mkpos 1 0 INIT true true; mkpos 1 0 ACCEPT true false] in
+  Forall valid_pos ps /\ map snd (run zero_pos ps) = [true; false; true; true] /\ ~ no_backward zero_pos ps.
+Proof.
+  cbv zeta. split; [repeat constructor; simpl; try lia; congruence|]. split; [vm_compute; reflexivity|].
+  simpl. intros [_ [NB _]]. apply NB. split; [reflexivity|]. left. simpl. lia.
+Qed.
